@@ -300,33 +300,28 @@ func (f *Forward) exchange(ctx context.Context, qCtx *query_context.Context, us 
 	}
 
 	for i := 0; i < concurrent; i++ {
+		var rs res
 		select {
-		case res := <-resChan:
-			r, err := res.r, res.err
-			if err != nil {
-				continue
-			}
-
-			// Retry until the last
-			if i < concurrent-1 && r.Rcode != dns.RcodeSuccess && r.Rcode != dns.RcodeNameError {
-				continue
-			}
-			return r, nil
+		case rs = <-resChan:
 		case <-ctx.Done():
-			// Both cases can be ready. A NOERROR or NXDOMAIN reply that arrived
-			// before ctx was done is still the answer.
-			for {
-				select {
-				case res := <-resChan:
-					if res.err == nil && (res.r.Rcode == dns.RcodeSuccess || res.r.Rcode == dns.RcodeNameError) {
-						return res.r, nil
-					}
-					continue
-				default:
-				}
+			// Both cases can be ready. A result that arrived before ctx was
+			// done still counts, it is judged like any other.
+			select {
+			case rs = <-resChan:
+			default:
 				return nil, context.Cause(ctx)
 			}
 		}
+		r, err := rs.r, rs.err
+		if err != nil {
+			continue
+		}
+
+		// Retry until the last
+		if i < concurrent-1 && r.Rcode != dns.RcodeSuccess && r.Rcode != dns.RcodeNameError {
+			continue
+		}
+		return r, nil
 	}
 	return nil, errors.New("all upstream servers failed")
 }
